@@ -556,3 +556,12 @@ package ss2022
 //@   requires (len(c.cipherConfig.PSK) == 16 || len(c.cipherConfig.PSK) == 32) && len(c.unsafeResponseStreamPrefix) <= 1 << 20 && c.requestSaltLen == len(c.cipherConfig.PSK)
 //@   requires !isnil(c.ShadowStreamConn.writeCipher) ==> !samearray(c.ShadowStreamConn.writeBuf, c.ShadowStreamConn.writeCipher.nonce[:]) && !samearray(b, c.ShadowStreamConn.writeCipher.nonce[:])
 //@   ensures isnil(err) ==> n == len(b)
+
+// Dialling (C01): the request names the caller's target; the initial payload goes into the request as far as
+// it fits (65535 - address length - 2 bytes), in place and from its first byte, and whatever did not fit is
+// written right after as ordinary data, starting exactly where the request part ended.
+//@ func (*StreamClient).DialStream
+//@   requires !isnil(c) && !isnil(c.cipherConfig) && conn.AddrWF(targetAddr) && (len(c.cipherConfig.PSK) == 16 || len(c.cipherConfig.PSK) == 32) && len(c.unsafeRequestStreamPrefix) <= 65536 && len(c.cipherConfig.eihPSKHashes) <= 1024
+//@   callsite PutTCPRequestVariableLengthHeader: arg1 == targetAddr && samearray(arg2, old(payload)) && sliceoff(arg2) == old(sliceoff(payload)) && len(arg2) == min(old(len(payload)), 65535 - socks5.LengthOfAddrFromConnAddr(targetAddr) - 2)
+//@   callsite PutTCPRequestFixedLengthHeader: arg2 == len(variableLengthHeaderPlaintext)
+//@   callsite ConnWriteContext: samearray(arg2, old(payload)) && sliceoff(arg2) == old(sliceoff(payload)) + (65535 - socks5.LengthOfAddrFromConnAddr(targetAddr) - 2) && len(arg2) == old(len(payload)) - (65535 - socks5.LengthOfAddrFromConnAddr(targetAddr) - 2) && len(arg2) > 0
